@@ -38,10 +38,19 @@ func Present(mode, text, iflag string) (args []string, stdin string, files map[s
 		files["in_trees.nw"] = text
 		return []string{iflag, "in_trees.nw"}, "", files, mode
 	case "gz":
+		// a file of several lines is written as two gzip members (what `cat a.gz b.gz`, bgzip or
+		// pigz -i produce): a legal .gz file that must be read to its end
 		var b bytes.Buffer
-		w := gzip.NewWriter(&b)
-		w.Write([]byte(text))
-		w.Close()
+		parts := []string{text}
+		if lines := strings.SplitAfter(text, "\n"); len(lines) > 2 {
+			h := len(lines) / 2
+			parts = []string{strings.Join(lines[:h], ""), strings.Join(lines[h:], "")}
+		}
+		for _, p := range parts {
+			w := gzip.NewWriter(&b)
+			w.Write([]byte(p))
+			w.Close()
+		}
 		files["in_trees.nw.gz"] = b.String()
 		return []string{iflag, "in_trees.nw.gz"}, "", files, mode
 	}
